@@ -234,6 +234,48 @@ def grad_case(case):
             "sample": {"target": where["target"], "K": K, "n": n, "scale": s, "affinity": tag, "table": table, "P": P}}
 
 
+def documented_defaults_case(case):
+    """An objective built WITHOUT the optional arguments is the objective the documentation describes: same clipping precision, hence the same
+    score and the same gradient (zero on the entries the documented bounds clip) as the object built with the documented values written out."""
+    ti, K, n, seed = case
+    import gemclus.gemini as Gm
+    from gemclus.gemini._utils import _str_to_gemini
+    from mc.defaults import documented_defaults
+    target, dist = TARGETS[ti]
+    cls, ovo = target
+    klass = getattr(Gm, cls)
+    doc = documented_defaults(klass)
+    where = dict(target=f"{cls}(ovo={ovo})", dist=dist, K=K, n=n, scale=0, affinity="default", epsilon=None)
+    rs = np.random.RandomState(9100 + seed + K + n)
+    X = rs.normal(size=(n, 2))
+    # saturated predictions with entries on both sides of the documented precision (1e-12) and of nearby powers of ten
+    P = softmax(rs.normal(size=(n, K)))
+    tiny = [1e-10, 3e-11, 1e-13, 1e-15, 1e-9, 2e-12][: n]
+    for i, t_ in enumerate(tiny):
+        P[i] = t_
+        P[i, i % K] = 1 - (K - 1) * t_
+    kwargs_doc = {k: v for k, v in doc.items() if k not in ("ovo",)}
+    objs = [("default_constructed", klass() if cls == "MI" else klass(ovo=ovo)), ("documented_values_written_out", klass(**kwargs_doc) if cls == "MI" else klass(ovo=ovo, **kwargs_doc))]
+    name = {"KLGEMINI": "kl", "TVGEMINI": "tv", "HellingerGEMINI": "hellinger", "ChiSquareGEMINI": "chi2", "MMDGEMINI": "mmd", "WassersteinGEMINI": "wasserstein"}.get(cls)
+    if name is not None:
+        objs.append(("registry_name", _str_to_gemini(f"{name}_{'ovo' if ovo else 'ova'}")))
+    elif cls == "MI":
+        objs.append(("registry_name", _str_to_gemini("mi")))
+    v, res = [], []
+    for label, g in objs:
+        with np.errstate(all="ignore"):
+            sc, G = g(P.copy(), g.compute_affinity(X), return_grad=True)
+        res.append((label, float(sc), np.asarray(G, dtype=float), getattr(g, "epsilon", None)))
+    base = res[1]
+    for label, sc, G, eps in res:
+        if eps != doc.get("epsilon", eps):
+            v.append(violation("default_differs_from_the_documented_value", {"object": label, "epsilon": eps, "documented": doc.get("epsilon")}, **where))
+        if not (abs(sc - base[1]) <= 1e-12 * max(1.0, abs(base[1])) and G.shape == base[2].shape and np.allclose(G, base[2], rtol=1e-9, atol=1e-12)):
+            v.append(violation("gradient_mismatch", {"object": label, "score": sc, "score_with_documented_values": base[1],
+                                                     "max_gradient_difference": float(np.abs(G - base[2]).max()) if G.shape == base[2].shape else None}, **where))
+    return {"v": v[:3], "nt": [case], "stats": {"evals": len(objs), "differentiable": 1, "kinks": 0}, "sample": {"target": where["target"], "documented": doc}}
+
+
 def large_point_case(case):
     """Hundreds to thousands of samples, up to 64 clusters: the score is the same with and without the gradient requested, and the gradient is the
     derivative of the returned score along a few seed-generic logit directions (two-step central differences)."""
@@ -325,7 +367,12 @@ def explorers(tier, seed):
     for ti, (target, dist) in enumerate(TARGETS):
         shapes_b = {"wasserstein": [(3, 301)], "mmd": [(3, 700), (12, 601)]}.get(dist, [(3, 700), (16, 300), (12, 1000), (32, 1500), (64, 701)] + ([(5, 2049), (40, 3001)] if thorough else []))
         big += [(ti, K, n, seed) for K, n in shapes_b]
-    return [Explorer("large_points", "props.c02", "large_point_case", big, chunk=1, floor=20, case_timeout=1500,
+    cdoc = [(ti, K, n, seed) for ti in range(len(TARGETS)) for K, n in ((2, 4), (3, 6), (4, 6))]
+    return [Explorer("documented_defaults", "props.c02", "documented_defaults_case", cdoc, chunk=8, floor=20,
+                     rule="13 class/flag targets: default-constructed object vs the object built with the documented default values written out (read from "
+                          "the numpydoc 'default=' lines) vs the registry name, on saturated predictions with entries on both sides of the documented "
+                          "clipping precision: same epsilon, same score, same gradient"),
+            Explorer("large_points", "props.c02", "large_point_case", big, chunk=1, floor=20, case_timeout=1500,
                      rule="13 class/flag targets on hundreds to thousands of samples and up to 64 clusters: score identical with and without the gradient requested; "
                           "gradient vs two-step central differences of the returned score along three seed-generic logit directions"),
             Explorer("softmax_chain_and_tangents", "props.c02", "grad_case", cases, chunk=8, floor=500,
